@@ -968,6 +968,10 @@ class Executor:
             i = z3.Int(smt.fresh_name("k"))
             eqf = (lambda x: smt.deq(x, item.z)) if isinstance(container.td.elem, TRefT) else (lambda x: x == item.z)
             return z3.Exists([i], z3.And(0 <= i, i < info.len(container.z), eqf(info.at(container.z, i))))
+        if isinstance(container, PyDict) and isinstance(item, SV) and item.td == TStr \
+                and all(isinstance(k, str) or (isinstance(k, SV) and k.td == TStr) for k in container.keys):
+            # membership of a string among the (string) keys of a dict display
+            return z3.Or(*[self.equals(item, smt.lift(k) if isinstance(k, str) else k, st, node) for k in container.keys]) if container.keys else z3.BoolVal(False)
         if isinstance(container, ClassVal) or isinstance(container, PyDict):
             raise OutsideSubset("'in' on dict/class", node)
         h = self.hooks.get("contains")
@@ -1004,6 +1008,19 @@ class Executor:
             return out
         if isinstance(v, ClassVal):  # Payload[_L](...) style generic subscripts
             return self.ok(v, s)
+        if isinstance(v, PyDict) and isinstance(i, SV) and i.td == TStr and v.keys \
+                and all(isinstance(k, str) or (isinstance(k, SV) and z3.is_string_value(k.z)) for k in v.keys):
+            # d[key] with a symbolic string key over constant string keys: one path per entry, KeyError otherwise
+            out2: list[Res] = []
+            rest = s
+            for k, val in zip(v.keys, v.values):
+                eq = self.equals(i, smt.lift(k) if isinstance(k, str) else k, rest, node)
+                if self.feasible(rest, eq):
+                    out2.append(Res("ok", val, rest.fork().assume(eq)))
+                rest = rest.fork().assume(z3.Not(eq))
+            if self.feasible(rest, z3.BoolVal(True)):
+                out2.extend(self.raise_("KeyError", rest, node))
+            return out2
         h = self.hooks.get("index")
         if h is not None:
             r = h(self, v, i, s, node)
@@ -1229,6 +1246,28 @@ class Executor:
             if h is not None:
                 r = h(self, target, value, st, node)
                 if r is not None:
+                    return None
+            rs = self.ev(target.value, st)
+            if len(rs) == 1 and rs[0].kind == "ok" and isinstance(rs[0].value, PyDict) and rs[0].value.fresh and isinstance(target.value, ast.Name):
+                ks = self.ev(target.slice, rs[0].state)
+                if len(ks) == 1 and ks[0].kind == "ok":
+                    # a dict built in this function: functional update of the local name (aliases of local dicts are outside the subset)
+                    d = rs[0].value
+                    st.env[target.value.id] = PyDict(list(d.keys) + [ks[0].value], list(d.values) + [value], True)
+                    return None
+            if len(rs) == 1 and rs[0].kind == "ok" and isinstance(rs[0].value, SV) and isinstance(rs[0].value.td, TRefT) and rs[0].value.td.cls is None \
+                    and isinstance(target.value, ast.Name) and not getattr(rs[0].value, "fresh", False):
+                ks = self.ev(target.slice, rs[0].state)
+                if len(ks) == 1 and ks[0].kind == "ok":
+                    # a mapping handed in by the caller: reads of it are arbitrary (call_builtin 'any.get'), so the store itself needs
+                    # no model -- but it is a write outside this call's own objects, and whatever is stored is shared from now on
+                    fr = self.hooks.get("frame_mutation")
+                    if fr is not None:
+                        fr(self, rs[0].value, "[...] = ", st, node)
+                    if isinstance(value, SV) and isinstance(value.td, TRefT):
+                        st.ghost["escaped"] = frozenset(st.ghost.get("escaped", frozenset())) | {value.z.get_id()}
+                    elif not isinstance(value, SV) or isinstance(value.td, TSeqT):
+                        raise OutsideSubset("storing a container into a caller's mapping", node)
                     return None
             raise OutsideSubset("subscript assignment", node)
         raise OutsideSubset(f"assignment target {type(target).__name__}", node)
